@@ -50,8 +50,16 @@ def run_c20(tier):
                 findings.append({"kind": "finding", "prop": prop, "what": "run with a concurrent noise thread fails", "site": "", "variant": variant,
                                  "detail": {"schedule": s, "stderr": err}})
             elif out != ref:
-                findings.append({"kind": "finding", "prop": prop, "what": "transcript depends on what another thread is doing", "site": "",
-                                 "variant": variant, "detail": dict(first_diff(ref, out), schedule=s)})
+                la, lb = ref.decode(errors="replace").splitlines(), out.decode(errors="replace").splitlines()
+                diff = [(x, y) for x, y in zip(la, lb) if x != y]
+                if len(la) == len(lb) and diff and all("tie_" in x and "tie_" in y for x, y in diff):
+                    # only the lines about the class of equal-cost symbol constants differ (finding D20)
+                    findings.append({"kind": "finding", "prop": prop, "site": "", "variant": variant, "schedule": s,
+                                     "what": "choice among equal-cost symbol constants depends on the order in which the global interner saw the names",
+                                     "detail": dict(first_diff(ref, out), schedule=s, differing_lines=len(diff))})
+                else:
+                    findings.append({"kind": "finding", "prop": prop, "what": "transcript depends on what another thread is doing", "site": "",
+                                     "variant": variant, "detail": dict(first_diff(ref, out), schedule=s)})
     cov = {"states": st["distinct"], "transitions": st["generated"], "traces_validated_against_impl": nrun,
            "samples": [{"schedule": scheds[17]["sched"], "global_symbol_interning_order": scheds[17]["symorder"]}, {"transcript_head": sample}],
            "evaluations": nrun, "distinct_nontrivial": len({json.dumps(s["symorder"]) for s in scheds}),
@@ -61,7 +69,13 @@ def run_c20(tier):
                    "threads (channel hand-shake) in a fresh process, stdout compared byte for byte with the solo run; distinct = distinct global "
                    "symbol interning orders" % len(scheds),
            "exhaustive": True, "tlc_model": st}
-    finish(prop, tier, t0, [f for f in findings if f["prop"] == prop], cov, assumptions=[
+    def noise_interned_symbols_before_the_tie_class(f):
+        # some operation of the noise thread that interns symbols (its first one does) ran before the main thread's third
+        # operation, which builds the class of equal-cost symbol constants: the interner's indices (per shard) of these
+        # constants then differ from the solo run
+        sch = f.get("schedule", "")
+        return "n" in sch and sch.index("n") < [i for i, c in enumerate(sch) if c == "m"][2]
+    finish(prop, tier, t0, [f for f in findings if f["prop"] == prop], cov, triggers={"noise_interned_symbols_before_the_tie_class": noise_interned_symbols_before_the_tie_class}, assumptions=[
         "address and hash-seed independence is exercised (fresh processes), not modelled",
         "one fixed main history; the schedule space is exhaustive at operation granularity"])
 
